@@ -1,8 +1,144 @@
 import MetadorModel.Py.DrvLib
-/-! Driver stub (to be filled in). -/
-open MetadorModel
+import MetadorModel.Model.Chain
+import MetadorModel.Model.UBlock
+/-!
+Driver for the record-opening model (C04) and the user-block codec / torn writes (C11).
 
-def step (s : Unit) : List String → Unit × String
+```
+cfg <mfAware T|F> <allowBaseless T|F>          -> ok
+def <name> <hex of first bytes|-> <whole T|F>   -> def ok | def err <kind> | def outside      (names a user block; kept until `#case`)
+file @<name> <payload digest|-> <h5ok T|F> <manifest digest|none>   -> ok
+open                                           -> ok <input indices in patch order> | err <kind>   (and forgets the files)
+load <hex|-> <whole T|F>                       -> ub <rid> <idx> <pid> <prev|-> <hash|-> <ext> | err <kind>
+tornall <old hex> <data hex> <kmax>            -> runs  o*a e*b n*c …  (k = 0 … kmax)
+```
+`whole = F` says that the file continues after the bytes given; if the model then needs more
+bytes than it was given (stated size > bytes given) the answer is `err outside`.
+Digests and uuids are sent as plain tokens (alphabet `[0-9A-Za-z:-]`).
+-/
+open MetadorModel MetadorModel.Drv MetadorModel.Chain MetadorModel.UBlock
+
+abbrev P := Nat × Digest
+abbrev DFile := File P Digest
+
+structure St where
+  mfAware : Bool := false
+  allowBaseless : Bool := false
+  files : List (Option DFile) := []   -- reversed
+  outside : Bool := false
+  defs : List (String × Bool × Except UBlock.Err UB) := []   -- name ↦ (needs more bytes?, loaded block)
+
+def parseB : String → Option Bool
+  | "T" => some true
+  | "F" => some false
+  | _ => none
+
+def unhexBytes (s : String) : Option Bytes :=
+  if s == "-" then some [] else (unhex s.toList).map (fun l => l.map Char.ofNat)
+
+def safeTok (s : String) : Bool :=
+  !s.isEmpty && s.toList.all (fun c => c.isAlphanum || c == ':' || c == '-')
+
+def ubErr : UBlock.Err → String
+  | .nonAscii => "nonascii"
+  | .notIH5 => "notih5"
+  | .badSize => "badsize"
+  | .reread => "reread"
+  | .nonCanonical => "noncanonical"
+
+def chErr : Chain.Err → String
+  | .empty => "empty" | .load => "load" | .h5open => "h5open" | .basePrev => "baseprev"
+  | .recordUuid => "recorduuid" | .hashMissing => "hashmissing" | .hashMismatch => "hashmismatch"
+  | .index => "index" | .prevMissing => "prevmissing" | .prevMismatch => "prevmismatch"
+  | .stubPatch => "stubpatch" | .dupPid => "duppid" | .mfMissing => "mfmissing"
+  | .mfMismatch => "mfmismatch"
+
+def tok (s : List Char) : String := if s.isEmpty then "-" else String.ofList s
+def otok : Option (List Char) → String
+  | none => "-"
+  | some s => "=" ++ String.ofList s
+
+def showUB (u : UB) : String :=
+  let e := match u.ext with
+    | none => "-"
+    | some e => s!"ext:{if e.isStub then "T" else "F"}:{tok e.muuid}:{tok e.mhash}"
+  s!"ub {tok u.rid} {u.idx} {tok u.pid} {otok u.prev} {otok u.hash} {e}"
+
+/-- does the model need bytes the harness did not send? -/
+def needsMore (bytes : Bytes) (whole : Bool) : Bool :=
+  if whole then false
+  else match readHeadRaw bytes 512 with
+    | .ok (some (sz, _)) => decide (sz > 512) && decide (sz.toNat > bytes.length)
+    | _ => false
+
+def runs (l : List Char) : String :=
+  let rec go : List Char → Option (Char × Nat) → List String → List String
+    | [], none, acc => acc.reverse
+    | [], some (c, n), acc => (s!"{c}*{n}" :: acc).reverse
+    | x :: xs, none, acc => go xs (some (x, 1)) acc
+    | x :: xs, some (c, n), acc => if x = c then go xs (some (c, n + 1)) acc else go xs (some (x, 1)) (s!"{c}*{n}" :: acc)
+  " ".intercalate (go l none [])
+
+def classify (ro rn r : Except UBlock.Err UB) : Char :=
+  match r with
+  | .error .nonAscii => 'a'
+  | .error _ => 'e'
+  | .ok u =>
+    if (match ro with | .ok v => decide (v = u) | _ => false) then 'o'
+    else if (match rn with | .ok v => decide (v = u) | _ => false) then 'n'
+    else 'x'
+
+def step (s : St) : List String → St × String
+  | ["cfg", a, b] =>
+    match parseB a, parseB b with
+    | some a, some b => ({ s with mfAware := a, allowBaseless := b }, "ok")
+    | _, _ => (s, "bad-op")
+  | ["def", name, hx, whole] =>
+    match unhexBytes hx, parseB whole with
+    | some bytes, some whole =>
+      let more := needsMore bytes whole
+      let r := loadUB bytes
+      ({ s with defs := (name, more, r) :: s.defs },
+        if more then "def outside" else match r with
+          | .ok _ => "def ok"
+          | .error e => "def err " ++ ubErr e)
+    | _, _ => (s, "bad-op")
+  | ["file", ref, dg, h5, mf] =>
+    match s.defs.lookup ((ref.drop 1).toString), parseB h5 with
+    | some (more, r), some h5 =>
+      if !ref.startsWith "@" || !(dg == "-" || safeTok dg) || !(mf == "none" || safeTok mf) then (s, "bad-op")
+      else
+        let i := s.files.length
+        let d : Digest := if dg == "-" then [] else dg.toList
+        let m : Option Digest := if mf == "none" then none else some mf.toList
+        let f : Option DFile := match r with
+          | .ok u => some { ub := u, payload := (i, d), h5ok := h5, mf := m }
+          | .error _ => none
+        ({ s with files := f :: s.files, outside := s.outside || more }, "ok")
+    | _, _ => (s, "bad-op")
+  | ["open"] =>
+    let s' := { s with files := [], outside := false }
+    if s.outside then (s', "err outside")
+    else
+      match openFiles (fun p : P => p.2) (fun m : Digest => m) s.mfAware s.allowBaseless s.files.reverse with
+      | .ok l => (s', " ".intercalate ("ok" :: l.map (fun f => toString f.payload.1)))
+      | .error e => (s', "err " ++ chErr e)
+  | ["load", hx, whole] =>
+    match unhexBytes hx, parseB whole with
+    | some bytes, some whole =>
+      if needsMore bytes whole then (s, "err outside")
+      else match loadUB bytes with
+        | .ok u => (s, showUB u)
+        | .error e => (s, "err " ++ ubErr e)
+    | _, _ => (s, "bad-op")
+  | ["tornall", ohx, dhx, km] =>
+    match unhexBytes ohx, unhexBytes dhx, km.toNat? with
+    | some old, some data, some kmax =>
+      let ro := loadUB old
+      let rn := loadUB (torn data.length old data)
+      let cls := (List.range (kmax + 1)).map (fun k => classify ro rn (loadUB (torn k old data)))
+      (s, "runs " ++ runs cls)
+    | _, _, _ => (s, "bad-op")
   | _ => (s, "bad-op")
 
-def main : IO Unit := Drv.run () step
+def main : IO Unit := Drv.run ({} : St) step
